@@ -123,9 +123,15 @@ def c12_struct(tier="quick", seed=0):
     out.append(ob("C12.struct.inventory", n_bind > 0, "K3", f"{n_bind} module-level bindings inspected"))
     # 2. persistence and recovery in Context.eval
     ev = _S_.unparse(S.fn("microjs.context", "Context.eval"))
-    out.append(ob("C12.struct.eval-fresh-vm", "vm = VM(memory_limit=self.memory_limit, time_limit=self.time_limit)" in ev, "K3", "Context.eval builds a fresh VM"))
-    out.append(ob("C12.struct.eval-shares-globals", "vm.globals = self._globals" in ev, "K3", "the VM's globals are the context's dictionary (identity)"))
-    out.append(ob("C12.struct.eval-resets-current-vm", "finally:\n        self._current_vm = None" in ev, "K3", "_current_vm is reset on every exit of eval"))
+    nv0 = _S_.unparse(S.fn("microjs.context", "Context._nested_vm"))
+    fresh = "vm = VM(memory_limit=self.memory_limit, time_limit=self.time_limit)"
+    via_nested = "vm = self._nested_vm()" in ev
+    out.append(ob("C12.struct.eval-fresh-vm", fresh in ev or (via_nested and fresh in nv0), "K3", "Context.eval builds a fresh VM (directly or through _nested_vm)"))
+    out.append(ob("C12.struct.eval-shares-globals", "vm.globals = self._globals" in ev or (via_nested and "vm.globals = self._globals" in nv0), "K3",
+                  "the VM's globals are the context's dictionary (identity)"))
+    restores = ("finally:\n        self._current_vm = None" in ev
+                or ("outer_vm = self._current_vm" in ev and "finally:\n        self._current_vm = outer_vm" in ev))
+    out.append(ob("C12.struct.eval-resets-current-vm", restores, "K3", "_current_vm is put back (to None, or to the evaluation that called the host function) on every exit of eval"))
     nv = _S_.unparse(S.fn("microjs.context", "Context._nested_vm"))
     out.append(ob("C12.struct.nested-shares-globals", "vm.globals = self._globals" in nv, "K3", "nested eval / Function / comparators share the same dictionary"))
     init = _S_.unparse(S.fn("microjs.context", "Context.__init__"))
@@ -379,12 +385,21 @@ def c12_current_state(tier="quick", seed=0):
 def _kept_method(Context):
     """ctx.eval("var m = [1,2,3].map"); (time passes) ctx.eval("m(f)") -- the method value is used in a later evaluation"""
     import time as _t
-    c = Context(time_limit=1.0)
-    c.eval("var m = [1, 2, 3].map; 0")
-    _t.sleep(1.1)
-    a = c.eval("m(function (x) { for (var i = 0; i < 300; i++); return x }).join()")
-    b = c.eval("var r; try { m(function () { throw 5 }) } catch (e) { r = 'caught ' + e } r")
-    return f"{a}|{b}"
+    for attempt in range(4):
+        c = Context(time_limit=1.0)
+        c.eval("var m = [1, 2, 3].map; 0")
+        _t.sleep(1.1)
+        t0 = _t.monotonic()
+        try:
+            a = c.eval("m(function (x) { for (var i = 0; i < 300; i++); return x }).join()")
+            b = c.eval("var r; try { m(function () { throw 5 }) } catch (e) { r = 'caught ' + e } r")
+        except Exception as e:  # noqa
+            # under full machine load the second evaluation may really need more than its own second: only a stop
+            # BEFORE its own deadline is the old deadline at work
+            if type(e).__name__ == "TimeLimitError" and _t.monotonic() - t0 >= 1.0 and attempt < 3:
+                continue
+            raise
+        return f"{a}|{b}"
 
 
 PROBES_C12 = [
